@@ -11,9 +11,19 @@ fn name(seq: u64) -> String {
     format!("wal-{:08x}.wal", seq)
 }
 
+thread_local! {
+    /// (entry, value): the payload of that entry is chosen so that its checksum is that value
+    static FORGE: std::cell::Cell<Option<(usize, u32)>> = std::cell::Cell::new(None);
+}
+
 fn entry(gid: usize, size: usize, stamp: u64) -> WalEntry {
     let mut data = vec![0xA0u8 ^ (gid as u8); size];
     data[0] = gid as u8;
+    if let Some((g, target)) = FORGE.with(|f| f.get()) {
+        if g == gid && size >= 5 {
+            forge_crc(&mut data, size - 4, target, &|b| crc32fast::hash(b));
+        }
+    }
     let checksum = crc32fast::hash(&data);
     WalEntry { data, timestamp: stamp, checksum }
 }
@@ -45,8 +55,64 @@ fn same(a: &WalEntry, b: &WalEntry) -> bool {
     a.data == b.data && a.timestamp == b.timestamp && a.checksum == b.checksum
 }
 
+/// A store in which one file cannot be read: opening it fails, or reading it fails half way (an I/O
+/// error, not a damaged image).  Everything else is the in-memory store.
+#[derive(Clone)]
+struct UnreadableStore {
+    inner: InMemoryWalStore,
+    bad: String,
+    mode: u8, // 0: open_read fails with an I/O error; 1: read_all fails with an I/O error; 2: open_read reports NotFound
+}
+struct FailingReader;
+impl redis_sim::streaming::wal_store::WalFileReader for FailingReader {
+    fn read_all(&mut self) -> Result<Vec<u8>, redis_sim::streaming::wal_store::WalError> {
+        Err(std::io::Error::new(std::io::ErrorKind::Other, "injected: input/output error").into())
+    }
+}
+enum EitherReader<R> {
+    Real(R),
+    Failing(FailingReader),
+}
+impl<R: redis_sim::streaming::wal_store::WalFileReader> redis_sim::streaming::wal_store::WalFileReader for EitherReader<R> {
+    fn read_all(&mut self) -> Result<Vec<u8>, redis_sim::streaming::wal_store::WalError> {
+        match self {
+            EitherReader::Real(r) => r.read_all(),
+            EitherReader::Failing(f) => f.read_all(),
+        }
+    }
+}
+impl WalStore for UnreadableStore {
+    type Writer = <InMemoryWalStore as WalStore>::Writer;
+    type Reader = EitherReader<<InMemoryWalStore as WalStore>::Reader>;
+    fn create(&self, name: &str) -> Result<Self::Writer, redis_sim::streaming::wal_store::WalError> {
+        self.inner.create(name)
+    }
+    fn open_read(&self, name: &str) -> Result<Self::Reader, redis_sim::streaming::wal_store::WalError> {
+        if name == self.bad {
+            return match self.mode {
+                0 => Err(std::io::Error::new(std::io::ErrorKind::PermissionDenied, "injected: permission denied").into()),
+                2 => Err(std::io::Error::new(std::io::ErrorKind::NotFound, "injected: vanished").into()),
+                _ => Ok(EitherReader::Failing(FailingReader)),
+            };
+        }
+        self.inner.open_read(name).map(EitherReader::Real)
+    }
+    fn list(&self) -> Result<Vec<String>, redis_sim::streaming::wal_store::WalError> {
+        self.inner.list()
+    }
+    fn delete(&self, name: &str) -> Result<(), redis_sim::streaming::wal_store::WalError> {
+        self.inner.delete(name)
+    }
+    fn exists(&self, name: &str) -> Result<bool, redis_sim::streaming::wal_store::WalError> {
+        self.inner.exists(name)
+    }
+}
+
 fn recover(img: &Image) -> Value {
-    let st = img.store.clone();
+    recover_from(img, img.store.clone())
+}
+
+fn recover_from<S: WalStore + Clone + std::panic::UnwindSafe>(img: &Image, st: S) -> Value {
     let r = catch(|| {
         let rot = WalRotator::new(st, 1 << 30).unwrap();
         let all = rot.recover_all_entries();
@@ -128,15 +194,74 @@ fn damage_cases(out: &mut Out, sizes: &[Vec<usize>], every_bit: bool, rng: &mut 
     }
 }
 
+/// One file of an otherwise intact image cannot be read (I/O error): like a file cut to nothing, it must
+/// not hide the entries of the other files.
+fn unreadable_cases(out: &mut Out, sizes: &[Vec<usize>]) {
+    let stamps: Vec<Vec<u64>> = {
+        let mut g = 0;
+        sizes.iter().map(|f| f.iter().map(|_| { g += 1; 7 + g }).collect()).collect()
+    };
+    for file in 1..=sizes.len() {
+        for mode in 0..3u8 {
+            let img = build(sizes, &stamps);
+            let st = UnreadableStore { inner: img.store.clone(), bad: name(file as u64), mode };
+            let mut rec = recover_from(&img, st);
+            let m = rec.as_object_mut().unwrap();
+            m.insert("t".into(), json!("dmg"));
+            m.insert("run".into(), json!(out.n + 1));
+            m.insert("files".into(), json!(img.sizes));
+            m.insert("file".into(), json!(file));
+            m.insert("kind".into(), json!(["unreadable_open", "unreadable_read", "unreadable_gone"][mode as usize]));
+            m.insert("cut".into(), json!(0));
+            m.insert("lo".into(), json!(-1));
+            m.insert("hi".into(), json!(-1));
+            m.insert("ext".into(), json!(0));
+            out.emit(&rec);
+        }
+    }
+}
+
+/// An intact image in which one entry's checksum takes an edge value (all zeros, all ones, a single bit).
+fn checksum_cases(out: &mut Out) {
+    for target in [0u32, u32::MAX, 1, 1 << 31] {
+        for (sizes, gid, file) in [(vec![vec![6usize, 9, 7]], 2usize, 1usize), (vec![vec![5], vec![8, 6]], 2, 2), (vec![vec![7, 5], vec![6]], 1, 1)] {
+            FORGE.with(|f| f.set(Some((gid, target))));
+            case(out, &sizes, file, "intact_checksum_edge", |_| (-1, -1, -1, 0));
+            FORGE.with(|f| f.set(None));
+        }
+    }
+}
+
+/// Entries far larger than the usual ones (up to beyond 64 MiB; the bulk limit is 512 MiB): intact, with a
+/// damaged neighbour, with their own tail cut; and truncation around them.
+fn big_cases(out: &mut Out, big: usize) {
+    for sizes in [vec![vec![3usize, big, 2]], vec![vec![2], vec![big, 1], vec![4]]] {
+        let file = if sizes.len() == 1 { 1 } else { 2 };
+        let flen = 16 + sizes[file - 1].iter().map(|s| 16 + s).sum::<usize>();
+        case(out, &sizes, file, "intact", |_| (-1, -1, -1, 0));
+        case(out, &sizes, file, "cut", |d| { d.truncate(flen - 1); ((flen - 1) as i64, -1, -1, 0) });
+        case(out, &sizes, file, "flip", |d| { let p = d.len() - 1; d[p] ^= 1; (-1, 0, 0, 0) });
+        case(out, &sizes, file, "ext", |d| { d.extend(std::iter::repeat(0u8).take(48)); (-1, -1, -1, 48) });
+    }
+    for t in [0u64, 1, 4, 5, 6] {
+        trunc_case_sized(out, &[vec![1, 5], vec![2]], &[vec![3, big], vec![3]], t, true);
+        trunc_case_sized(out, &[vec![5, 1], vec![6]], &[vec![big, 3], vec![3]], t, false);
+    }
+}
+
 /// Truncation: older files written with WalWriter, the active one through the rotator.
 fn trunc_case(out: &mut Out, stamps: &[Vec<u64>], t: u64, with_active: bool) {
     let sizes: Vec<Vec<usize>> = stamps.iter().map(|f| f.iter().map(|_| 3).collect()).collect();
+    trunc_case_sized(out, stamps, &sizes, t, with_active)
+}
+
+fn trunc_case_sized(out: &mut Out, stamps: &[Vec<u64>], sizes: &[Vec<usize>], t: u64, with_active: bool) {
     let nold = if with_active { stamps.len() - 1 } else { stamps.len() };
     let img = build(&sizes[..nold], &stamps[..nold]);
     let st = img.store.clone();
     let stamps2 = stamps.to_vec();
     let r = catch(move || {
-        let mut rot = WalRotator::new(st.clone(), 1 << 20).unwrap();
+        let mut rot = WalRotator::new(st.clone(), 1 << 30).unwrap();
         if with_active {
             for (i, s) in stamps2[nold].iter().enumerate() {
                 rot.append(&entry(200 + i, 3, *s)).unwrap();
@@ -217,6 +342,15 @@ pub fn main(a: &Args) -> i32 {
     }
     for l in &layouts {
         damage_cases(&mut out, l, thorough, &mut rng);
+    }
+    for l in &layouts[..3] {
+        if l.len() > 1 {
+            unreadable_cases(&mut out, l);
+        }
+    }
+    checksum_cases(&mut out);
+    for big in if thorough { vec![(1usize << 20) + 1, 17 << 20, (64 << 20) + 5, 130 << 20] } else { vec![(1usize << 20) + 1, (64 << 20) + 5] } {
+        big_cases(&mut out, big);
     }
     // truncation: every stamp layout over {1,2,3} for files of 1-2 entries, 2-3 files, every T
     let vals = [1u64, 2, 3];
